@@ -5,35 +5,6 @@ Import ListNotations.
 Local Open Scope nat_scope.
 
 (* ------------------------------------------------------------------ list facts *)
-Lemma firstn_incl {A} n (l : list A) : incl (firstn n l) l.
-Proof. intros x H. rewrite <- (firstn_skipn n l). apply in_or_app. left. exact H. Qed.
-
-Lemma firstn_NoDup_map {A B} (f : A -> B) n (l : list A) : NoDup (map f l) -> NoDup (map f (firstn n l)).
-Proof.
-  intros H. rewrite <- (firstn_skipn n l), map_app in H. eapply NoDup_app_l, H.
-Qed.
-
-Lemma NoDup_app_intro {A} (a b : list A) :
-  NoDup a -> NoDup b -> (forall x, In x a -> ~ In x b) -> NoDup (a ++ b).
-Proof.
-  induction a as [|x a IH]; simpl; intros Ha Hb D; [exact Hb|].
-  inversion Ha as [|? ? Hn Ha']; subst. constructor.
-  - intros H. apply in_app_or in H as [H|H]; [apply Hn, H|]. apply (D x); auto.
-  - apply IH; auto.
-Qed.
-
-Lemma filter_length_split {A} (p : A -> bool) l :
-  length (filter p l) + length (filter (fun x => negb (p x)) l) = length l.
-Proof. pose proof (Permutation_length (filter_partition_perm p l)) as H. rewrite app_length in H. exact H. Qed.
-
-Lemma filter_NoDup_map {A B} (f : A -> B) (p : A -> bool) l : NoDup (map f l) -> NoDup (map f (filter p l)).
-Proof.
-  induction l as [|x l IH]; simpl; intros H; [constructor|].
-  inversion H as [|? ? Hn H']; subst. destruct (p x); simpl; [|apply IH, H'].
-  constructor; [|apply IH, H']. intros Hx. apply Hn.
-  apply in_map_iff in Hx as [y [E Hy]]. apply filter_In in Hy as [Hy _]. rewrite <- E. apply in_map, Hy.
-Qed.
-
 (* members of a repeat-free list that also occur in F: at most |F| *)
 Lemma overlap_bound F l :
   NoDup (map uid l) -> length (filter (fun x => mem_uid x F) l) <= length F.
